@@ -158,7 +158,14 @@ func (db *ContractDB) loadFile(repo, file string) error {
 				// lemma name: expr  (expr may continue on following lines)
 				i := strings.Index(rest, ":")
 				if i < 0 {
-					return fmt.Errorf("%s:%d: lemma needs 'name: expr'", file, ln)
+					// block form: lemma NAME followed by params / requires / ensures
+					// directives; its expressions may call real functions of the
+					// package named by 'option pkg=' (a "code lemma")
+					c.Name = strings.TrimSpace(rest)
+					cur = c
+					db.All = append(db.All, c)
+					db.Lemmas = append(db.Lemmas, c)
+					continue
 				}
 				c.Name = strings.TrimSpace(rest[:i])
 				cur = c
